@@ -63,9 +63,9 @@ func checks() []Check {
 			Rule:        "stateless model checking of the real netpoll.Poller (default and poll_opt variants) on a real epoll instance/eventfd: every interleaving up to a preemption bound of one polling loop with 1..3 producers calling Trigger; scheduling points at every atomic, queue operation and system call; an execution is one evaluation; oracle at quiescence (loop parked in epoll_wait, producers returned): every accepted task ran exactly once on the loop thread, high-priority tasks of one producer in issue order, and the loop is still wakeable",
 			Assumptions: append([]string{"sequentially consistent interleavings; fairness rotation after 60 consecutive steps", "epoll/eventfd behaviour is that of this kernel; enabledness of epoll_wait is decided by poll(2) on the epoll descriptor"}, commonAssumptions...),
 			Units: []Unit{
-				{Name: "poller-default", Pkg: "pkg/netpoll", Test: "TestMC_C03", Instrument: true, InstrPkgs: []string{"pkg/netpoll", "pkg/queue"}, Shards: 8, ShardsThorough: 11, BudgetQuick: 200, BudgetThorough: 1500, Env: []string{"GOMAXPROCS=2"}},
+				{Name: "poller-default", Pkg: "pkg/netpoll", Test: "TestMC_C03", Instrument: true, InstrPkgs: []string{"pkg/netpoll", "pkg/queue"}, Shards: 12, ShardsThorough: 15, BudgetQuick: 200, BudgetThorough: 1500, Env: []string{"GOMAXPROCS=2"}},
 				{Name: "engine-seam", Test: "TestMC_C03seam", Pkg: ".", Tags: "verifmc", Instrument: true, Shards: 16, BudgetQuick: 150, BudgetThorough: 1500, Env: []string{"GOMAXPROCS=2"}}, {Name: "engine-seam-poll_opt", Test: "TestMC_C03seam", Pkg: ".", Tags: "verifmc,poll_opt", Tier: "thorough", Instrument: true, Shards: 16, BudgetQuick: 150, BudgetThorough: 1500, Env: []string{"GOMAXPROCS=2"}}, {Name: "engine-seam-gc_opt", Test: "TestMC_C03seam", Pkg: ".", Tags: "verifmc,gc_opt", Tier: "thorough", Instrument: true, Shards: 16, BudgetQuick: 150, BudgetThorough: 1500, Env: []string{"GOMAXPROCS=2"}},
-				{Name: "poller-poll_opt", Pkg: "pkg/netpoll", Tags: "poll_opt", Test: "TestMC_C03", Instrument: true, InstrPkgs: []string{"pkg/netpoll", "pkg/queue"}, Shards: 8, ShardsThorough: 11, BudgetQuick: 200, BudgetThorough: 1500, Env: []string{"GOMAXPROCS=2"}},
+				{Name: "poller-poll_opt", Pkg: "pkg/netpoll", Tags: "poll_opt", Test: "TestMC_C03", Instrument: true, InstrPkgs: []string{"pkg/netpoll", "pkg/queue"}, Shards: 12, ShardsThorough: 15, BudgetQuick: 200, BudgetThorough: 1500, Env: []string{"GOMAXPROCS=2"}},
 			},
 		},
 		{
